@@ -316,6 +316,140 @@ def xla_obligations(rep):
     rep.under_contract("targets.xla_client.Printer.make_constant", "ScalarLike(like.ref, value) with like defined")
 
 
+
+# --------------------------------------------------------------------------------------------- O5 whole functions
+NAMED_CONSTANTS = ("largest", "smallest", "smallest_subnormal", "posinf", "neginf", "eps", "pi", "nan", "undefined")
+CPP_WORDS = set("XlaOp return template typename auto const float double bool true false static_cast std numeric_limits DType M_PI NAN INFINITY".split())
+
+
+def cpp_binding_events(src):
+    """(problems, names) of an emitted XLA-client function: every identifier on a right-hand side that is not a builder
+    call must be a parameter or the target of an EARLIER statement; every name is assigned once"""
+    lines = [ln.strip() for ln in src.splitlines() if ln.strip()]
+    joined = " ".join(lines)
+    m = re.search(r"\b(\w+)\s*\(([^)]*)\)\s*\{", joined)
+    if not m:
+        return ["no function header found"], set()
+    defined = {a.split()[-1] for a in m.group(2).split(",") if a.strip()}
+    body = joined[m.end() : joined.rfind("}")]
+    probs = []
+    for st in [x.strip() for x in body.split(";") if x.strip()]:
+        ma = re.match(r"^(?:[\w:<>]+)\s+(\w+)\s*=\s*(.*)$", st, re.S)
+        if ma:
+            var, rhs = ma.group(1), ma.group(2)
+        elif st.startswith("return"):
+            var, rhs = None, st[len("return") :]
+        else:
+            continue
+        for mm in re.finditer(r"[A-Za-z_]\w*", rhs):
+            nm = mm.group(0)
+            after = rhs[mm.end() :].lstrip()
+            before = rhs[: mm.start()].rstrip()
+            if after.startswith("(") or after.startswith("<") or after.startswith("::") or before.endswith("::") or before.endswith(".") or nm in CPP_WORDS:
+                continue
+            if re.fullmatch(r"[eE]\d*|[fFlL]|inf|nan|infinity|NAN|INFINITY", nm) and re.search(r"[\d.]$", before):
+                continue  # exponent / suffix of a numeric literal
+            if nm not in defined:
+                probs.append("`%s` is referenced before it is bound in `%s`" % (nm, st[:80]))
+        if var:
+            if var in defined:
+                probs.append("`%s` is bound twice" % var)
+            defined.add(var)
+    return probs, defined
+
+
+def dag_binding_events(src):
+    """problems of an emitted StableHLO pattern: every `$name` used in the result dag is an argument of the source pattern or
+    bound (`:$name`) earlier in text order; nothing is bound twice"""
+    m = re.search(r"def\s*:\s*Pat<\((.*?)\),\s*(\(.*\))>;", src, re.S)
+    if not m:
+        return ["no Pat<> found"]
+    defined = set(re.findall(r":\$(\w+)", m.group(1)))
+    probs = []
+    for mm in re.finditer(r"(:)?\$(\w+)", m.group(2)):
+        nm = mm.group(2)
+        if mm.group(1):
+            if nm in defined:
+                probs.append("`$%s` is bound twice" % nm)
+            defined.add(nm)
+        elif nm not in defined:
+            probs.append("`$%s` is referenced but not bound before" % nm)
+    return probs
+
+
+def whole_function_obligations(rep):
+    """binding discipline of whole emitted functions: directed graphs (constants whose reference operand is a derived,
+    possibly shared expression; constants without a reference operand; comparisons folded by the rewriter) and EVERY shipped
+    algorithm for every signature the target lists in trace_arguments (the package's own pipeline: trace, rewrite, print)"""
+    import functional_algorithms as fa
+    import functional_algorithms.algorithms as A
+    import functional_algorithms.targets as T
+
+    def directed():
+        def derived_like_shared(ctx, z):
+            x = ctx.real(z)
+            c = ctx.constant(1.5, x)
+            return ctx((c - x) * c)
+
+        def derived_like_once(ctx, z):
+            c = ctx.constant(1.5, ctx.imag(z))
+            return ctx(ctx.real(z) * c)
+
+        def constant_without_like(ctx, x, y):
+            return ctx.select(x < y, ctx.constant(2.0), x)
+
+        def folded_comparison(ctx, x, y):
+            return ctx.select(ctx.logical_xor(x >= x, x < y), x, y)
+
+        return [("constant-like-derived-shared", derived_like_shared, (complex,)), ("constant-like-derived-once", derived_like_once, (complex,)), ("constant-without-reference-operand", constant_without_like, (float, float)), ("comparison-folded-by-rewriter", folded_comparison, (float, float))]
+
+    for tname, checker in (("xla_client", lambda s: cpp_binding_events(s)[0]), ("stablehlo", dag_binding_events)):
+        target = getattr(T, tname)
+        fnid = ("targets.%s.Printer" % tname,)
+        cases = [("directed/" + nm, f, sig) for nm, f, sig in directed()]
+        for name, sigs in sorted(target.trace_arguments.items()):
+            func = getattr(A, name, None)
+            if func is None:
+                continue
+            for sig in sigs:
+                cases.append(("shipped/%s%s" % (name, "".join("[%s]" % a.strip(":") for a in sig)), func, sig))
+        def scaled(ctx, x, y):
+            c = ctx.sqrt(ctx.constant(2, x)) + ctx.constant(3, x)  # a compile-time constant expression used twice
+            d = c * c
+            return ctx(x * d + y * c)
+
+        alt_cases = []
+        if tname == "xla_client":
+            # the alternative constant context: compile-time constants are printed by the C++ constant printer into the same body
+            alt_cases = [("alt:" + c[0], c[1], c[2]) for c in cases if c[0].startswith("shipped/")] + [("alt:directed/compile-time-constant-shared", scaled, (float, float))]
+        for cname, func, sig in cases + alt_cases:
+            alt = cname.startswith("alt:")
+            oid = "C06/O5/%s/bound-before-use/%s" % (tname, cname)
+            try:
+                with warnings.catch_warnings():
+                    warnings.simplefilter("ignore")
+                    import contextlib
+                    import io
+
+                    with contextlib.redirect_stdout(io.StringIO()):
+                        ctx = fa.Context(paths=[A], enable_alt=True, default_constant_type="DType") if alt else fa.Context(paths=[A])
+                        g = ctx.trace(func, *sig).rewrite(target, fa.rewrite)
+                        src = g.tostring(target)
+            except NotImplementedError as e:
+                rep.add(core.decided(oid, PROP, None, functions=fnid, text="the target does not accept this graph: %s" % e, claimed=False))
+                continue
+            except Exception as e:
+                rep.add(core.decided(oid, PROP, False, functions=fnid, text="printing raised %r" % (e,), meta=dict(target=tname, kind="whole-function " + cname, problems=[repr(e)[:200]])))
+                continue
+            probs = checker(src)
+            # a named constant the target has no rendering for is printed as its bare name (ScalarLike(x, largest)): its own obligation
+            named = [pr for pr in probs if re.match(r"`\$?(%s)`" % "|".join(NAMED_CONSTANTS), pr)]
+            probs = [pr for pr in probs if pr not in named]
+            rep.add(core.decided(oid, PROP, not probs, functions=fnid, text="every named value is bound exactly once before it is referenced", detail=dict(problems=probs[:4], text=src[:600] if probs else None), meta=dict(target=tname, kind="whole-function " + cname, problems=probs[:3])))
+            if tname == "xla_client":
+                rep.add(core.decided(oid.replace("/bound-before-use/", "/named-constants-rendered/"), PROP, not named, functions=("targets.xla_client.constant_to_target",), text="named constants are rendered by an expression of the target, not left as bare names", detail=dict(problems=named[:4]), meta=dict(target=tname, kind="named-constants " + cname, problems=sorted({re.match(r"`\$?(\w+)`", pr).group(1) for pr in named}))))
+
+
 def build(tier):
     rep = core.Report(PROP, tier)
     rep.trust("the operator inventories of StableHLO / CHLO / the XLA client builder written in this file from their public definitions (the dialects are not installed)", "the TableGen dag parser in this file", "CPython executing the real printers")
@@ -335,13 +469,14 @@ def build(tier):
             o.functions = ("targets.xla_client.kind_to_target",)
             rep.add(o)
 
-    for f in (stablehlo_obligations, xla_obligations, xla_composition):
+    for f in (stablehlo_obligations, xla_obligations, xla_composition, whole_function_obligations):
         try:
             f(rep)
         except Exception:
             rep.add(core.decided("C06/%s/engine" % f.__name__, PROP, core.ERROR, text=traceback.format_exc()[-1500:]))
     rep.add(core.decided("C06/canary/swapped-dag-operands", PROP, parse_dag("(StableHLO_SubtractOp $b, $a)")[3] != [("ref", "a"), ("ref", "b")], text="canary: the parser distinguishes operand order", kind="canary"))
-    rep.replayers["C06/"] = lambda o: dict(replayed=True, witness_class="%s %s" % ((o.meta or {}).get("target"), (o.meta or {}).get("kind")), detail=o.meta)
+    rep.replayers["C06/O5/xla_client/named-constants-rendered/"] = lambda o: dict(replayed=bool((o.meta or {}).get("problems")), witness_class="xla_client named constants left as bare names: " + ", ".join((o.meta or {}).get("problems") or []), detail=o.meta)
+    rep.replayers["C06/"] = lambda o: dict(replayed=True, witness_class="%s %s" % ((o.meta or {}).get("target"), (o.meta or {}).get("kind")) + ((": " + "; ".join(sorted({re.sub(r" in `.*", "", str(pr)) for pr in (o.meta or {}).get("problems") or []}))) if (o.meta or {}).get("problems") else ""), detail=o.meta)
     return rep
 
 
